@@ -1363,6 +1363,17 @@ def build_table(I):
             if isinstance(cond, bool):
                 return nxt(I, st, inner, kt) if cond else k(st, it, None)
             return with_cond(cond, nxt(I, st, inner, kt)) + with_cond(z3.Not(cond), k(st, it, None))
+        if kind == "step_by":
+            inner, n, first = it.extra
+            if is_sym(n):
+                raise _i.Unsupported("symbolic step")
+            def ks(st2, i2, x, left):
+                if x is None:
+                    return k(st2, Iter("step_by", (), 0, (i2, n, False)), None)
+                if left == 0:
+                    return k(st2, Iter("step_by", (), 0, (i2, n, False)), x)
+                return nxt(I, st2, i2, lambda st3, i3, y: ks(st3, i3, y, left - 1))
+            return nxt(I, st, inner, lambda st2, i2, x: ks(st2, i2, x, 0 if first else n - 1))
         if kind == "skip":
             inner, n = it.extra
             if is_sym(n):
@@ -1440,6 +1451,12 @@ def build_table(I):
     @reg("Iterator::map")
     def it_map(I, st, a, c):
         return Iter("map", (), 0, (as_iter(I, st, a[0]), a[1]))
+
+    @reg("Iterator::step_by")
+    def it_step_by(I, st, a, c):
+        if not is_sym(a[1]) and a[1] <= 0:
+            return [(None, panic("assertion failed: step != 0"))]
+        return Iter("step_by", (), 0, (as_iter(I, st, a[0]), a[1], True))
 
     @reg("Iterator::filter")
     def it_filter(I, st, a, c):
